@@ -1010,6 +1010,15 @@ func genTotal(r *term.Rng, idx int) term.T {
 		// single-token deletion
 		p := g.program(1+r.Intn(3), 3)
 		i := r.Intn(len(p.toks))
+		if r.Bool() {
+			// single-token substitution: a token of another kind (literal keyword, bracket, operator, name,
+			// number, string) in the place of any token - every "expecting X, got Y" path of the parser
+			sub := append([]string{}, p.toks...)
+			sub[i] = term.Pick(r, []string{"true", "false", "null", "let", "fn", "if", "else", "for", "while", "switch", "case",
+				"default", "return", "break", "continue", "fallthrough", ";", ":", ",", "=", "(", ")", "[", "]", "{", "}", "+", "-", "!",
+				"<=", "||", "x", "1", "1.5", "\"s\""})
+			return mkInput(nil, render(r, sub, r.Bool()))
+		}
 		del := append(append([]string{}, p.toks[:i]...), p.toks[i+1:]...)
 		return mkInput(nil, render(r, del, r.Bool()))
 	case 5, 6:
